@@ -28,6 +28,7 @@ ORACLE_TEXT = {
          "no column record of a nonexistent table; checked after success and after rollback",
   "C20": "every PositionNumber column holds distinct finite values per table after each bundle",
   "C31": "direct flags parallel to stored; summary-table maintenance and formula-result updates non-direct; "
+         "in bundles of record edits no schema action (the conversion of an empty column while data is entered) is direct; "
          "the user's record edits on ordinary tables direct",
   "C09": "after every successful bundle: every Ref/RefList metadata cell (columns read from schema_create_actions) points at an "
          "existing record; fields belong to their section's table; each user table has exactly one _grist_Tables record and a "
@@ -74,7 +75,7 @@ def plan(pid, tier):
     return shards
   if tier == "quick":
     for fx, size in (("basic", "med"), ("trigger2", "small"), ("types", "small"), ("summary", "small"),
-                     ("twoway", "small"), ("lookup", "small"), ("cascade", "small")):
+                     ("twoway", "small"), ("lookup", "small"), ("cascade", "small"), ("empties", "small")):
       for k in kinds:
         shards.append((fx, "one", k, 1, size, size, want, 0, None, None))
     pairs = []
@@ -93,7 +94,7 @@ def plan(pid, tier):
       for fx in ("basic", "twoway", "summary", "cascade", "types", "views", "lookup"):
         for k in F.ALL_KINDS:
           shards.append((fx, "one", k + "+Fail", 2, "full", "micro", want, 0, None, None))
-    fixtures = ["basic", "types", "twoway", "summary", "trigger", "trigger2", "views", "lookup", "cycles", "cascade"]
+    fixtures = ["basic", "types", "twoway", "summary", "trigger", "trigger2", "views", "lookup", "cycles", "cascade", "empties"]
     for fx in fixtures:
       for k in F.ALL_KINDS:
         shards.append((fx, "one", k, 1, "full", "full", want, 0, None, None))
